@@ -186,7 +186,7 @@ func cmdCheck(args []string) {
 			return true
 		}
 		switch o.Kind {
-		case "ensures", "invariant@entry", "invariant@back", "step", "requires@call", "assert", "globalinv", "frame":
+		case "ensures", "invariant@entry", "invariant@back", "step", "assert", "globalinv":
 			return lockedClause[clauseOf(o.Name)]
 		}
 		return false
